@@ -15,7 +15,7 @@ func init() {
 		ID:    "C03",
 		Title: "Best match: literals beat variables, independent of registration order",
 		Decided: "C03.a each comparator used to rank candidates is, over all 3^m order relations between its m keys, exactly a lexicographic comparison with one fixed direction per key and 'false' when all keys are equal (hence a strict weak order), its primary key for route candidates is the literal measure ordered so that more literal comes first (taking sort.Reverse at the call site into account), and the route comparators end in a strict comparison of Route.Path (a total tie-break, which makes the sorted order independent of registration order for distinct templates); " +
-			"C03.d a mux registration is suppressed only by whole-pattern equality (reachability independent of Add order); C03.e the counters returned by a token matcher classify each segment once; C03.b the candidates are sorted after the last candidate was added and before they are handed on, and the stage function returns element 0 of its final, order-preserving list; C03.c in the root-path scorer every literal token adds strictly more than any variable token and all increments are positive, the best root is replaced only on a strictly greater score, and the scan over the services runs to exhaustion. After a candidate was added, no element of the collection is read outside the adding loop on a path that skipped sort.Sort, unless fewer than two candidates exist. Between the sort and the selection the functions the selectors reach only filter: no append joins two lists of candidates unless the first is empty.",
+			"C03.d a mux registration is suppressed only by whole-pattern equality (reachability independent of Add order); C03.e the counters returned by a token matcher classify each segment once; C03.f inside a candidate-collecting loop no branch reads a variable carried from one iteration to the next; C03.b the candidates are sorted after the last candidate was added and before they are handed on, and the stage function returns element 0 of its final, order-preserving list; C03.c in the root-path scorer every literal token adds strictly more than any variable token and all increments are positive, the best root is replaced only on a strictly greater score, and the scan over the services runs to exhaustion. After a candidate was added, no element of the collection is read outside the adding loop on a path that skipped sort.Sort, unless fewer than two candidates exist. Between the sort and the selection the functions the selectors reach only filter: no append joins two lists of candidates unless the first is empty.",
 		NotDecided: "that the counts (static, literal, parameter) are computed correctly per template; the full 'never less specific' relation over arbitrary overlapping templates; stability issues of sort.Sort beyond totality of the order.",
 		Rules: []Rule{
 			{ID: "C03.a", Template: "T-CMP", Required: true, Run: ruleC03a,
@@ -26,6 +26,8 @@ func init() {
 				Doc: "Root score monotonicity: a literal and a variable root must not tie, and every service must be considered."},
 			{ID: "C03.d", Template: "T-SIBLING", Required: true, Run: ruleC11c,
 				Doc: "Which WebServices are reachable through the ServeMux must not depend on the order they were added: a mux registration is suppressed only by whole equality of the registered pattern with the pattern, computed the same way, of an already registered service. A prefix test drops the entry of /pq when /p was added first and keeps it otherwise."},
+			{ID: "C03.f", Template: "T-EFFECT", Required: true, Run: ruleCandidateLoopStateless,
+				Doc: "Candidates are admitted one by one: inside a loop that collects route candidates no branch is decided by a variable carried over from earlier iterations (a 'seen an all-literal route' flag, a counter). Such memory makes the candidate set, and with it the outcome, depend on the order the routes were registered in."},
 			{ID: "C03.e", Template: "T-ENFORCE", Required: false, Run: ruleC03e,
 				Doc: "The token matcher returns the counters the candidates are ranked by. A segment is classified once: no increment of one counter lies under the condition that distinguishes the increments of another (the variable test). Counting a {var}suffix segment as static as well ties it with a literal segment on the first key, and the second key (more parameters first) then prefers the variable route."},
 		},
@@ -134,6 +136,14 @@ func (cm *comparator) operand0(e ast.Expr) (cmpOperand, bool) {
 	for {
 		e = unparen(e)
 		switch x := e.(type) {
+		case *ast.CallExpr:
+			// ci.expressionToMatch(): an accessor method stands for the field path it returns
+			if recv, sub, ok := cm.accessorPath(x); ok {
+				path = append(append([]string{}, sub...), path...)
+				e = recv
+				continue
+			}
+			return cmpOperand{}, false
 		case *ast.SelectorExpr:
 			path = append([]string{x.Sel.Name}, path...)
 			e = x.X
@@ -496,29 +506,78 @@ func newComparator(p *Program, fn *ssa.Function) *comparator {
 	// local bindings  x := <recv...>[i|j]
 	for _, s := range body.List {
 		as, ok := s.(*ast.AssignStmt)
-		if !ok || as.Tok != token.DEFINE || len(as.Lhs) != 1 || len(as.Rhs) != 1 {
+		if !ok || as.Tok != token.DEFINE || len(as.Lhs) != len(as.Rhs) {
 			continue
 		}
-		id, ok := as.Lhs[0].(*ast.Ident)
-		if !ok {
-			continue
-		}
-		rhs := unparen(as.Rhs[0])
-		if ue, ok := rhs.(*ast.UnaryExpr); ok && ue.Op == token.AND {
-			rhs = unparen(ue.X) // a := &s[i]: the element, read in place
-		}
-		if ix, ok := rhs.(*ast.IndexExpr); ok {
-			if idx, ok := unparen(ix.Index).(*ast.Ident); ok {
-				if idx.Name == names[0] {
-					cm.locals[id.Name] = "i"
+		for k := range as.Lhs { // a, b := s[i], s[j] binds like two statements
+			id, ok := as.Lhs[k].(*ast.Ident)
+			if !ok {
+				continue
+			}
+			rhs := unparen(as.Rhs[k])
+			if ue, ok := rhs.(*ast.UnaryExpr); ok && ue.Op == token.AND {
+				rhs = unparen(ue.X) // a := &s[i]: the element, read in place
+			}
+			if ix, ok := rhs.(*ast.IndexExpr); ok {
+				if idx, ok := unparen(ix.Index).(*ast.Ident); ok {
+					if idx.Name == names[0] {
+						cm.locals[id.Name] = "i"
+					}
+					if idx.Name == names[1] {
+						cm.locals[id.Name] = "j"
+					}
 				}
-				if idx.Name == names[1] {
-					cm.locals[id.Name] = "j"
-				}
+			} else if op, ok := cm.operand0(rhs); ok && op.side != "" && op.key != "" {
+				// pi := ci.route.Path: the local stands for that key of that side
+				cm.locals[id.Name] = op.side
+				cm.prefix[id.Name] = op.key
 			}
 		}
 	}
 	return cm
+}
+
+// accessorPath: call is x.m() of a module method without parameters whose body is `return recv.a.b`; it returns x
+// and the field path, so that the call reads like the selector it stands for.
+func (cm *comparator) accessorPath(call *ast.CallExpr) (ast.Expr, []string, bool) {
+	if len(call.Args) != 0 || cm.info == nil {
+		return nil, nil, false
+	}
+	sel, ok := unparen(call.Fun).(*ast.SelectorExpr)
+	if !ok {
+		return nil, nil, false
+	}
+	obj, _ := cm.info.Uses[sel.Sel].(*types.Func)
+	if obj == nil {
+		return nil, nil, false
+	}
+	fn := cm.prog.Prog.FuncValue(obj)
+	if fn == nil || !cm.prog.inModule(fn) {
+		return nil, nil, false
+	}
+	fd, ok := fn.Syntax().(*ast.FuncDecl)
+	if !ok || fd.Body == nil || len(fd.Body.List) != 1 || fd.Recv == nil || len(fd.Recv.List) != 1 || len(fd.Recv.List[0].Names) != 1 {
+		return nil, nil, false
+	}
+	ret, ok := fd.Body.List[0].(*ast.ReturnStmt)
+	if !ok || len(ret.Results) != 1 {
+		return nil, nil, false
+	}
+	var path []string
+	e := unparen(ret.Results[0])
+	for {
+		switch x := e.(type) {
+		case *ast.SelectorExpr:
+			path = append([]string{x.Sel.Name}, path...)
+			e = unparen(x.X)
+			continue
+		case *ast.Ident:
+			if x.Name == fd.Recv.List[0].Names[0].Name && len(path) > 0 {
+				return sel.X, path, true
+			}
+		}
+		return nil, nil, false
+	}
 }
 
 // less evaluates Less(i,j) under rel.
